@@ -62,7 +62,8 @@ def fresh_case(sc):
                 sim.srv.compact(sim.things)
                 for wt in [w_ for w_ in sim.srv.watches if w_.res.plural == PLURAL]: wt.end('eof')
             sim.world.at(stale[0], cut, 1)
-        op = sim.operator('op1', reg, sim.settings(persistence__consistency_timeout=sc['timeout'], watching__reconnect_backoff=1))
+        tune = {'queueing__idle_timeout': sc['idle']} if sc.get('idle') else {}      # idle workers retire sooner than the barrier lasts
+        op = sim.operator('op1', reg, sim.settings(persistence__consistency_timeout=sc['timeout'], watching__reconnect_backoff=1, **tune))
         sim.world.at(1, lambda: sim.create('o1', {'x': 0}), 1)
         for k, t in enumerate(sc['edits'], start=1):
             sim.world.at(t, lambda k=k: sim.set_spec('o1', x=k), 1)
@@ -94,6 +95,9 @@ def fresh_scenarios(seed, n):
         edits = sorted(rnd.sample(range(3, 40), rnd.randint(1, 8)))
         out.append({'id': f'fresh-{seed}-{k}', 'lag': rnd.choice([0, 1, 1, 2, 3, 6]), 'timeout': rnd.choice([2, 5, 5]), 'mirror': rnd.random() < 0.7,
                     'edits': edits, 'end': 70})
+        if k % 4 == 1:          # the echo is slower than the idle timeout of the workers: the barrier must outlive an idle worker
+            r2 = random.Random(f'fresh-idle-{seed}-{k}')
+            out[-1].update(idle=r2.choice([1, 2]), lag=r2.choice([3, 4, 6]), timeout=r2.choice([5, 8]))
         if k % 4 == 3:          # a re-listing whose snapshot predates the own patch and is delivered after it
             r2 = random.Random(f'fresh-stale-{seed}-{k}')
             ts = r2.randint(4, 45); P = r2.choice([1, 2]); D = P + r2.choice([1, 2, 3])
